@@ -39,6 +39,9 @@ class Prog:
         return "C%d" % self.ncounter
 
     def emit(self, stmts, label=None, where=None):
+        # a remark swallows the rest of the line: keep remarks last
+        stmts = [s for s in stmts if not (s.startswith("REM") or s.startswith("'"))] + \
+                [s for s in stmts if s.startswith("REM") or s.startswith("'")][:1]
         (where if where is not None else self.lines).append([label, list(stmts)])
 
     def pick(self, seq):
@@ -432,12 +435,13 @@ class Prog:
         if rng.random() < 0.15:
             self.emit([rng.choice(["DEFINT Q", "DEFDBL R", "DEFSTR W", "DEFSNG A-C"])])
         self.blocks(size, 4)
+        end_label = self.label()
         if rng.random() < 0.12:
             self.emit([rng.choice(["PRINT 1\\0", "X=32767:I%=X+1", 'A="s"', "NEXT", "RETURN", "PRINT P(11)", "READ A,A,A,A,A,A,A,A,A",
-                                   "PRINT FNZ(1)", "DIM P(3)", "ERASE ZZ", 'PRINT ASC("")', "PRINT LEFT$(5,1)", "ON -1 GOTO 10"]
+                                   "PRINT FNZ(1)", "DIM P(3)", "ERASE ZZ", 'PRINT ASC("")', "PRINT LEFT$(5,1)", "ON -1 GOTO " + end_label]
                                   + (["STOP"] if self.features.get("stop", True) else []))])
         enders = ["END", "END", "END", "END", 'PRINT "done":END'] + (["STOP"] if self.features.get("stop", True) else [])
-        self.emit([rng.choice(enders)] if rng.random() < 0.93 else ["REM last"])
+        self.emit([rng.choice(enders)] if rng.random() < 0.93 else ["REM last"], label=end_label)
         self.lines.extend(self.subs)
         # DATA lines anywhere
         want = getattr(self, "want_data", [])
